@@ -85,6 +85,8 @@ pub fn queries() -> Vec<(T, bool)> {
         (cplx("eq", vec![v("$Z"), cplx("f", vec![v("$W")])]), false),
         // a query without variables
         (cplx("p", vec![atom("b")]), false),
+        // a constant before a variable: the query's variables do not line up with the rule head's
+        (cplx("two", vec![atom("b"), v("$W")]), false),
         (cplx("sl", vec![v("$Z")]), true),
     ]
 }
@@ -208,17 +210,28 @@ pub struct Kept<'a> {
     nodes: Vec<Rc<std::cell::RefCell<suiron::SolutionNode<'a>>>>,
 }
 
-/// Run one session on the real engine; returns (observations, text written).
-pub fn run_session<'a>(w: &mut Worker, kb: &'a suiron::KnowledgeBase, s: &Sess, kept: &mut Kept<'a>) -> (Vec<String>, String) {
+type Node<'a> = Rc<std::cell::RefCell<suiron::SolutionNode<'a>>>;
+
+/// Build the query of a session with a query constructor (both are exercised:
+/// the text one for the string modes) and its base node.
+pub fn build_session<'a>(kb: &'a suiron::KnowledgeBase, s: &Sess) -> (Rc<suiron::Goal>, Node<'a>) {
     let (q, _) = queries()[s.q].clone();
-    let _ = w.cap.take();
-    // both query constructors are exercised: the text one for the string modes
     let goal = match s.mode {
         Mode::Solve | Mode::SolveAll => suiron::parse_query(&q.text()).expect("session query parses"),
         _ => crate::implrun::make_query(&q),
     };
     let goal = Rc::new(goal);
     let sn = suiron::make_base_node(Rc::clone(&goal), kb);
+    (goal, sn)
+}
+
+/// Run one session on the real engine; returns (observations, text written).
+pub fn run_session<'a>(w: &mut Worker, kb: &'a suiron::KnowledgeBase, s: &Sess, kept: &mut Kept<'a>, prebuilt: Option<(Rc<suiron::Goal>, Node<'a>)>) -> (Vec<String>, String) {
+    let _ = w.cap.take();
+    let (goal, sn) = match prebuilt {
+        Some(x) => x,
+        None => build_session(kb, s),
+    };
     let mut obs = vec![];
     match s.mode {
         Mode::NextOne => {
@@ -289,9 +302,18 @@ pub fn sess_from_json(v: &Value) -> Vec<Sess> {
 }
 
 /// Executed in the forked child: run the history, return the report.
-fn child_body(w: &mut Worker, hist: &[Sess], prop: &str) -> Value {
+fn child_body(w: &mut Worker, hist: &[Sess], prop: &str, prebuild: bool) -> Value {
     let kb = build_kb(&program());
     let mut kept = Kept { nodes: vec![] };
+    // `prebuild`: every query of the history is constructed (and its base node made) before the
+    // first one runs, the last session's first, so that no query is constructed while an earlier-built
+    // one is still waiting to run with a lower id counter than its own variables
+    let mut pre: Vec<Option<(Rc<suiron::Goal>, Node)>> = hist.iter().map(|_| None).collect();
+    if prebuild {
+        for i in (0..hist.len()).rev() {
+            pre[i] = Some(build_session(&kb, &hist[i]));
+        }
+    }
     let mut viols = vec![];
     let mut states = vec![];
     let mut calls = 0u64;
@@ -300,7 +322,8 @@ fn child_body(w: &mut Worker, hist: &[Sess], prop: &str) -> Value {
         let (want, want_out) = expected(s);
         let want: Vec<String> = want.iter().map(|x| norm_ids(x)).collect();
         let t_start = std::time::Instant::now();
-        let r = std::panic::catch_unwind(std::panic::AssertUnwindSafe(|| run_session(w, &kb, s, &mut kept)));
+        let pb = pre[i].take();
+        let r = std::panic::catch_unwind(std::panic::AssertUnwindSafe(|| run_session(w, &kb, s, &mut kept, pb)));
         let took = t_start.elapsed();
         let (got, out) = match r {
             Ok(x) => x,
@@ -324,7 +347,7 @@ fn child_body(w: &mut Worker, hist: &[Sess], prop: &str) -> Value {
             // C23 for the string modes; in a longer history it is C22
             let (p, kind) = if hist.len() == 1 || i == 0 { ("C23", "alone") } else { ("C22", "after-history") };
             let timed = got.iter().any(|x| x.starts_with("Query timed out")) && !want.iter().any(|x| x.starts_with("Query timed out"));
-            let class = format!("{}:{}:{:?}{}", kind, queries()[s.q].0.text().split('(').next().unwrap_or(""), s.mode, if timed { ":spurious-timeout" } else { "" });
+            let class = format!("{}{}:{}:{:?}{}", kind, if prebuild { "-prebuilt" } else { "" }, queries()[s.q].0.text().split('(').next().unwrap_or(""), s.mode, if timed { ":spurious-timeout" } else { "" });
             let before: Vec<String> = hist[..i].iter().map(sess_text).collect();
             viols.push(json!({"prop": p, "class": class, "msg": format!("session {} ({}) after {:?}: observed {:?} / output {:?}; on its own the query gives {:?} / output {:?}", i + 1, sess_text(s), before, got, out, want, want_out)}));
         }
@@ -337,7 +360,7 @@ fn child_body(w: &mut Worker, hist: &[Sess], prop: &str) -> Value {
 
 /// Fork, run the history in the child, read its report.  The parent never
 /// touches the engine, so every history starts from a pristine process image.
-pub fn run_history_forked(w: &mut Worker, hist: &[Sess], prop: &str, limit_s: u64) -> Result<Value, String> {
+pub fn run_history_forked(w: &mut Worker, hist: &[Sess], prop: &str, limit_s: u64, prebuild: bool) -> Result<Value, String> {
     let mut fds = [0i32; 2];
     unsafe {
         if libc::pipe(fds.as_mut_ptr()) != 0 {
@@ -352,7 +375,7 @@ pub fn run_history_forked(w: &mut Worker, hist: &[Sess], prop: &str, limit_s: u6
             libc::close(fds[0]);
             // the capture file is shared with the parent and earlier children: start clean
             w.cap.reset();
-            let rep = child_body(w, hist, prop).to_string();
+            let rep = child_body(w, hist, prop, prebuild).to_string();
             let bytes = rep.as_bytes();
             let mut off = 0;
             while off < bytes.len() {
@@ -425,7 +448,7 @@ pub fn histories(prop: &str, tier: &str, f: &mut dyn FnMut(Vec<Sess>)) {
     let sub: Vec<Sess> = if thorough {
         al.clone()
     } else {
-        let pick = [(0, Mode::NextOne), (0, Mode::NextAll), (0, Mode::SolveAll), (1, Mode::Solve), (2, Mode::NextAll), (3, Mode::SolveAll), (4, Mode::NextOne), (5, Mode::Solve), (6, Mode::NextAll), (6, Mode::SolveAll)];
+        let pick = [(0, Mode::NextOne), (0, Mode::NextAll), (0, Mode::SolveAll), (1, Mode::Solve), (2, Mode::NextAll), (3, Mode::SolveAll), (4, Mode::NextOne), (5, Mode::Solve), (6, Mode::NextAll), (6, Mode::SolveAll), (7, Mode::Solve)];
         let mut v: Vec<Sess> = pick.iter().map(|(q, m)| Sess { q: *q, mode: *m }).collect();
         v.push(Sess { q: queries().len() - 1, mode: Mode::SolveAll });
         v
@@ -483,16 +506,25 @@ pub fn worker(prop: &str, tier: &str) {
         }
         w.begin(my);
         let slow = h.iter().filter(|s| is_slow(s)).count() as u64;
-        let mut result = run_history_forked(w, &h, prop, 300 + 5 * slow);
+        // every history of two or more sessions runs twice: queries constructed one by one, and all
+        // queries constructed up front (a node prepared before an earlier query ran)
+        for prebuild in [false, true] {
+        if prebuild && (h.len() < 2 || (slow > 0 && tier != "thorough" && h.len() > 2)) {
+            continue;
+        }
+        let mut result = run_history_forked(w, &h, prop, 300 + 5 * slow, prebuild);
         for _ in 0..5 {
             match &result {
                 Ok(rep) if rep["starved"].as_bool().unwrap_or(false) => {
                     w.count("histories.rerun_because_starved", 1);
                     std::thread::sleep(std::time::Duration::from_millis(500));
-                    result = run_history_forked(w, &h, prop, 300 + 5 * slow);
+                    result = run_history_forked(w, &h, prop, 300 + 5 * slow, prebuild);
                 }
                 _ => break,
             }
+        }
+        if prebuild {
+            w.count("histories.prebuilt_variant", 1);
         }
         match result {
             Ok(rep) if rep["starved"].as_bool().unwrap_or(false) => {
@@ -519,7 +551,7 @@ pub fn worker(prop: &str, tier: &str) {
                         w.count(&format!("viol.{}", p), 1);
                         let n = emitted.entry(format!("{}{}", p, class)).or_insert(0);
                         *n += 1;
-                        let wit = if *n <= 2 { json!({"engine":"sessions","history":sess_json(&h),"text":h.iter().map(sess_text).collect::<Vec<_>>()}) } else { Value::Null };
+                        let wit = if *n <= 2 { json!({"engine":"sessions","history":sess_json(&h),"prebuilt":prebuild,"text":h.iter().map(sess_text).collect::<Vec<_>>()}) } else { Value::Null };
                         w.emit(json!({"t":"viol","prop":p,"class":class,"kind":class.split(':').next().unwrap_or(""),"msg":v["msg"],"witness":wit}));
                     }
                 }
@@ -531,8 +563,9 @@ pub fn worker(prop: &str, tier: &str) {
             Err(e) => {
                 let kind = if e.starts_with("HANG") { "hang" } else { "crash" };
                 w.count(&format!("viol.{}", prop), 1);
-                w.emit(json!({"t":"viol","prop":prop,"class":format!("{}:history", kind),"kind":kind,"msg":format!("{} — history {:?}", e, h.iter().map(sess_text).collect::<Vec<_>>()),"witness":{"engine":"sessions","history":sess_json(&h)}}));
+                w.emit(json!({"t":"viol","prop":prop,"class":format!("{}:history", kind),"kind":kind,"msg":format!("{} — history {:?}", e, h.iter().map(sess_text).collect::<Vec<_>>()),"witness":{"engine":"sessions","history":sess_json(&h),"prebuilt":prebuild}}));
             }
+        }
         }
     });
     w.done();
@@ -599,7 +632,7 @@ pub fn replay(wit: &Value) -> bool {
     let mut w = Worker::from_env();
     let mut reports = vec![];
     for round in 0..2 {
-        match run_history_forked(&mut w, &h, "C22", 60) {
+        match run_history_forked(&mut w, &h, "C22", 60, wit["prebuilt"].as_bool().unwrap_or(false)) {
             Ok(rep) => {
                 eprintln!("run {}: global state after each session {}", round, rep["states"]);
                 for v in rep["viols"].as_array().cloned().unwrap_or_default() {
